@@ -200,7 +200,9 @@ func (s asciiString) ToBoolean() bool {
 }
 
 func (s asciiString) ToNumber() Value {
-	ss := strings.TrimSpace(string(s))
+	// Only the ASCII part of ECMAScript white space can occur here. strings.TrimSpace would also strip
+	// U+0085 (NEL), which is not white space in ECMAScript, from text converted from a Unicode string.
+	ss := strings.Trim(string(s), " \t\n\v\f\r")
 	if ss == "" {
 		return intToValue(0)
 	}
